@@ -96,17 +96,19 @@ func (r reasonErr) Error() string { return string(r) }
 
 // env is one instrumented state.
 type env struct {
-	L         *lua.LState
-	c         *counter
-	root      *cctx
-	emits     []string
-	emitsAft  int
-	maxEmits  int // reference runs: Goexit after this many emits (0 = unlimited)
-	pcallFn   *lua.LFunction
-	xpcallFn  *lua.LFunction
-	wrapped   map[*lua.LState]bool
-	worker    *lua.LState // mode "thread": the Go-created thread that carries the context
-	noInherit int         // coroutines created while the creator had a context but which got none
+	L           *lua.LState
+	c           *counter
+	root        *cctx
+	emits       []string
+	emitsAft    int
+	maxEmits    int // reference runs: Goexit after this many emits (0 = unlimited)
+	pcallFn     *lua.LFunction
+	xpcallFn    *lua.LFunction
+	wrapped     map[*lua.LState]bool
+	mustBeFresh bool // setup "bare*": no call may have been made on the state before the script
+	notFresh    bool
+	worker      *lua.LState // mode "thread": the Go-created thread that carries the context
+	noInherit   int         // coroutines created while the creator had a context but which got none
 }
 
 const stdReason = "context canceled"
@@ -124,9 +126,32 @@ func newEnvX(withCtx bool, k int, customReason string, removeCtx bool) *env {
 // worker thread made by L.NewThread (a per-request context on a Go-created thread); the script is
 // then run on that worker through L.Resume.
 func newEnvM(withCtx bool, k int, customReason string, removeCtx bool, mode string) *env {
+	return newEnvS(withCtx, k, customReason, removeCtx, mode, "")
+}
+
+// newEnvS adds the state-construction / attach-point dimension (setup):
+//
+//	""                 lua.NewState() (its library opening already made calls), SetContext, run
+//	"bare"             Options{SkipOpenLibs: true}, no library at all, SetContext BEFORE the very first
+//	                   call ever made on the state: the cancelled script is that first call
+//	"bare_libs"        same, with the libraries opened by invoking lua.OpenXxx(L) directly (no L.Call)
+//	"bare_late"        bare state whose first call is a context-free warm-up; SetContext after it
+//	"replace"          SetContext(A); SetContext(ctx); cancel A  (A must have no effect any more)
+//	"reattach"         SetContext(A); RemoveContext(); cancel A; SetContext(ctx)
+//	"bare_libs_replace" the two combined
+func newEnvS(withCtx bool, k int, customReason string, removeCtx bool, mode, setup string) *env {
 	e := &env{wrapped: map[*lua.LState]bool{}}
-	L := lua.NewState()
+	bare := strings.HasPrefix(setup, "bare")
+	L := lua.NewState(lua.Options{SkipOpenLibs: bare})
+	if bare && strings.Contains(setup, "libs") {
+		for _, open := range []lua.LGFunction{lua.OpenPackage, lua.OpenBase, lua.OpenTable, lua.OpenString,
+			lua.OpenMath, lua.OpenDebug, lua.OpenChannel, lua.OpenCoroutine} {
+			open(L)
+			L.SetTop(0)
+		}
+	}
 	e.L = L
+	e.mustBeFresh = bare && !strings.Contains(setup, "late")
 	e.pcallFn, _ = L.GetGlobal("pcall").(*lua.LFunction)
 	e.xpcallFn, _ = L.GetGlobal("xpcall").(*lua.LFunction)
 	L.SetGlobal("emit", L.NewFunction(func(L *lua.LState) int {
@@ -159,8 +184,33 @@ func newEnvM(withCtx bool, k int, customReason string, removeCtx bool, mode stri
 		if customReason != "" {
 			e.root.reason = reasonErr(customReason)
 		}
+		if strings.Contains(setup, "late") {
+			if err := L.DoString(`local warm = 1`); err != nil {
+				panic(err)
+			}
+		}
 		if mode != "thread" {
-			L.SetContext(e.root)
+			switch {
+			case strings.Contains(setup, "replace"):
+				a, cancelA := context.WithCancel(context.Background())
+				L.SetContext(a)
+				L.SetContext(e.root)
+				cancelA()
+			case strings.Contains(setup, "reattach"):
+				a, cancelA := context.WithCancel(context.Background())
+				L.SetContext(a)
+				if got := L.RemoveContext(); got != a {
+					e.noInherit++
+				}
+				cancelA()
+				L.SetContext(e.root)
+			default:
+				L.SetContext(e.root)
+			}
+		}
+	} else if strings.Contains(setup, "late") {
+		if err := L.DoString(`local warm = 1`); err != nil {
+			panic(err)
 		}
 	}
 	if mode == "thread" {
@@ -184,7 +234,10 @@ func newEnvM(withCtx bool, k int, customReason string, removeCtx bool, mode stri
 	}
 	// coroutine.create / coroutine.wrap: call the real builtin, then give the new thread's own
 	// (child) context the counting wrapper.
-	co := L.GetGlobal("coroutine").(*lua.LTable)
+	co, hasCo := L.GetGlobal("coroutine").(*lua.LTable)
+	if !hasCo {
+		return e
+	}
 	origCreate := co.RawGetString("create").(*lua.LFunction)
 	origWrap := co.RawGetString("wrap").(*lua.LFunction)
 	co.RawSetString("create", L.NewFunction(func(L *lua.LState) int {
@@ -316,6 +369,9 @@ func outcome(err error, reason string) (int, string) {
 func (e *env) runScript(src, mode string) (err error, exited bool) {
 	done := make(chan struct{})
 	exited = true
+	if e.mustBeFresh && e.L.G.MainThread != nil {
+		e.notFresh = true
+	}
 	go func() {
 		defer close(done)
 		switch mode {
